@@ -334,16 +334,18 @@ class SendPeakRMS(ugn.UGen):
     @classmethod
     def ar(cls, sig, reply_rate=20.0, peak_lag=3, cmd_name='/reply',
            reply_id=-1):
-        return cls._new1(
+        cls._new1(
             'audio', utl.as_list(sig), reply_rate,
             peak_lag, cmd_name, reply_id)
+        # return 0.0  # // SendPeakRMS has no output.
 
     @classmethod
     def kr(cls, sig, reply_rate=20.0, peak_lag=3, cmd_name='/reply',
            reply_id=-1):
-        return cls._new1(
+        cls._new1(
             'control', utl.as_list(sig), reply_rate,
             peak_lag, cmd_name, reply_id)
+        # return 0.0  # // SendPeakRMS has no output.
 
     @classmethod
     def _new1(cls, rate, sig, reply_rate, peak_lag, cmd_name, reply_id):
